@@ -435,6 +435,16 @@ func init() {
 			}
 			return i.equalsT(types.Typ[types.String], mkStr(a[len(a)-len(b):]), mkStr(b))
 		},
+		// context.WithValue without the reflectlite comparability check:
+		// &valueCtx{parent, key, val}
+		"context.WithValue": func(i *interp, caller *frame, fn *ssa.Function, args []value) value {
+			obj := fn.Pkg.Pkg.Scope().Lookup("valueCtx")
+			if obj == nil {
+				unsupported("context.valueCtx not found")
+			}
+			var cell value = structure{args[0], args[1], args[2]}
+			return iface{t: types.NewPointer(obj.Type()), v: &cell}
+		},
 		"internal/bytealg.IndexByteString": func(i *interp, caller *frame, fn *ssa.Function, args []value) value {
 			return i.indexByte(i.strBytes(args[0]), args[1].(*term.T))
 		},
